@@ -87,4 +87,7 @@ def run(chk, tier):
             continue
         cs = [c.split("::")[-1] for c, _ in H.calls(hh["body"]) if c and "InMemDicomObject" in c]
         chk.expect("command_from_iter_with_dict" in cs, "group-length-terms", fn, "forwards", "command_from_iter_with_dict", cs)
+    # the sum is taken over the in-memory text lengths: it is the written length only if the writer encodes each text as it is
+    from . import shared
+    shared.writer_text_identity(chk, fx, "writer-text-identity")
     chk.undecided.append("byte count of the executed Implicit VR LE encoding; duplicate tags in the input iterator (the map keeps one, the count sees both)")
